@@ -469,9 +469,30 @@ func (r *Runner) assignVal(name string, prev expand.Variable, as *syntax.Assign,
 	}
 	if valType == "-A" {
 		amap := make(map[string]string, len(elems))
+		if !slices.ContainsFunc(elems, func(elem *syntax.ArrayElem) bool { return elem.Index != nil }) {
+			// Without any subscripts, the words are alternating keys and values.
+			var words []string
+			for _, elem := range elems {
+				words = append(words, r.fields(elem.Value)...)
+			}
+			for i := 0; i < len(words); i += 2 {
+				if i+1 < len(words) {
+					amap[words[i]] = words[i+1]
+				} else {
+					amap[words[i]] = ""
+				}
+			}
+			elems = nil
+		}
 		for _, elem := range elems {
-			k := r.literal(elem.Index.(*syntax.Word))
-			amap[k] = r.literal(elem.Value)
+			w, ok := elem.Index.(*syntax.Word)
+			if !ok {
+				// TODO: support keys which parse as arithmetic expressions, like [1+1]
+				r.errf("%s: must use a plain subscript when assigning associative array\n", name)
+				r.exit.code = 1
+				continue
+			}
+			amap[r.literal(w)] = r.literal(elem.Value)
 		}
 		if as.Append && prev.Kind == expand.Associative {
 			// Add to a copy of the existing elements,
